@@ -20,7 +20,8 @@ BATTERIES = {
     'C16': [['visit'], ['visit-cf', '4', '3'], ['visit-deep', '100000']],
     'C03': [['op'], ['cf', '4', '3'], ['cf', '5', '2']],
     'C01': [['op'], ['cf', '4', '3']],
-    'C15': [['cf', '4', '3']],
+    'C15': [['builder']],
+    'C18': [['replace']],
     'C20': [['op'], ['cf', '4', '3']],
 }
 
